@@ -11,7 +11,7 @@
      statement_list      statements_or_empty()+   with   _ ';' _  /  (statement ** (_ ';' _)) _ ';'
      statement           assignment / IF / FOR / WHILE / REPEAT / EXIT / name(...) / RETURN
 
-   Scope: tokens are classified by [cl]; class CSel ('.', '[', ']', '#', '..') and COther (everything the model
+   Scope: tokens are classified by [cl]; class CSel ('.', '[', ']', '..'), a '#' that does not follow BOOL, and COther (everything the model
    does not read: CASE, typed and time literals, reals, direct addresses ...) put a text outside the model, which the
    entry point reports as a distinct outcome.  Variables are therefore plain names here.
    Recursion is open and tied with fuel; running out of fuel is a distinct outcome.  Executable; no proofs here. *)
@@ -28,6 +28,7 @@ Inductive tcl :=
   | COp (o : binop)            (* infix only; '+' is COp BAdd *)
   | CMinus | CNot
   | CKw (k : kw)
+  | CBoolT | CHash              (* BOOL and '#': only in BOOL#TRUE / BOOL#FALSE *)
   | CSel | COther.
 
 Definition kw_eqb (a b : kw) : bool :=
@@ -208,6 +209,16 @@ Section Parser.
             match r with
             | d :: r' => match cl d with CConst CkInt => Ok (XAtom (LfInt true (num d)), r') | _ => Fail end
             | [] => Fail
+            end
+        | CBoolT =>        (* boolean_literal: BOOL '#' TRUE / FALSE, adjacent *)
+            match r with
+            | h :: v :: r' =>
+                match cl h, cl v with
+                | CHash, CConst CkTrue => Ok (XAtom (LfBool true), r')
+                | CHash, CConst CkFalse => Ok (XAtom (LfBool false), r')
+                | _, _ => Fail
+                end
+            | _ => Fail
             end
         | CId =>
             match call_tail pe f r with
@@ -565,6 +576,17 @@ Section Parser.
     | Panic => Panic | OutOfFuel => OutOfFuel
     end.
 
-  Definition in_scope (ts : list tk) : bool :=
-    forallb (fun t => match cl t with CSel | COther => false | _ => true end) ts.
+  (* '#' only right after BOOL (every other use of '#' is a typed or time literal the model does not read) *)
+  Fixpoint in_scope_from (after_bool : bool) (ts : list tk) : bool :=
+    match ts with
+    | [] => true
+    | t :: r =>
+        match cl t with
+        | CSel | COther => false
+        | CHash => after_bool && in_scope_from false r
+        | CBoolT => in_scope_from true r
+        | _ => in_scope_from false r
+        end
+    end.
+  Definition in_scope (ts : list tk) : bool := in_scope_from false ts.
 End Parser.
